@@ -417,3 +417,136 @@ func condFacts(c *Ctx, f *FuncInfo, n ast.Node) string {
 	}
 	return ""
 }
+
+// ruleChoiceTransparent: R-CHOICE-TRANSPARENT (genutil.FindAllChildren).
+func ruleChoiceTransparent(c *Ctx, r *Report) {
+	r.Rule("R-CHOICE-TRANSPARENT", "in genutil.FindAllChildren (compressed schemas) every name recorded for a child — in the direct/shadow children maps and in the prioritised-name allow list — belongs to an entry proved not to be a choice/case node (choice and case are not data nodes: their first non-choice descendants are recorded instead)", 7)
+	f := c.MustFunc(r, "genutil", "FindAllChildren")
+	if f == nil {
+		return
+	}
+	info := f.Info()
+	isChoiceCall := func(e ast.Expr, x ast.Expr) bool {
+		call, ok := ast.Unparen(e).(*ast.CallExpr)
+		return ok && IsCall(info, call, P("util")+".IsChoiceOrCase") && len(call.Args) == 1 && sameExpr(info, call.Args[0], x)
+	}
+	isMethodOn := func(e ast.Expr, x ast.Expr, names ...string) bool {
+		call, ok := ast.Unparen(e).(*ast.CallExpr)
+		if !ok {
+			return false
+		}
+		sel, ok := call.Fun.(*ast.SelectorExpr)
+		if !ok || !sameExpr(info, sel.X, x) {
+			return false
+		}
+		for _, n := range names {
+			if sel.Sel.Name == n {
+				return true
+			}
+		}
+		return false
+	}
+	notChoice := func(site ast.Node, x ast.Expr) string {
+		for _, ft := range c.FactsAt(f, site, false) {
+			if ft.Kind != "cond" {
+				continue
+			}
+			if !ft.Pos && isChoiceCall(ft.Cond, x) {
+				return "!IsChoiceOrCase"
+			}
+			if ft.Pos && isMethodOn(ft.Cond, x, "IsList", "IsLeaf", "IsLeafList", "IsContainer") {
+				return "kind predicate"
+			}
+			if !ft.Pos && isMethodOn(ft.Cond, x, "IsDir") {
+				return "!IsDir"
+			}
+		}
+		// range value over FindFirstNonChoiceOrCase(…), directly or through a local map.
+		if id, ok := ast.Unparen(x).(*ast.Ident); ok {
+			obj := info.ObjectOf(id)
+			res := ""
+			ast.Inspect(f.Decl.Body, func(n ast.Node) bool {
+				rs, ok := n.(*ast.RangeStmt)
+				if !ok || rs.Value == nil || ObjOf(info, rs.Value) != obj {
+					return true
+				}
+				if IsCall(info, ast.Unparen(rs.X), P("util")+".FindFirstNonChoiceOrCase") {
+					res = "element of FindFirstNonChoiceOrCase"
+					return true
+				}
+				mo := ObjOf(info, rs.X)
+				if mo == nil {
+					return true
+				}
+				// all definitions of the map.
+				var lit ast.Expr
+				var viaChoice ast.Expr
+				okDefs := true
+				ast.Inspect(f.Decl.Body, func(m ast.Node) bool {
+					as, ok := m.(*ast.AssignStmt)
+					if !ok || len(as.Lhs) != 1 || len(as.Rhs) != 1 || ObjOf(info, as.Lhs[0]) != mo {
+						return true
+					}
+					rhs := ast.Unparen(as.Rhs[0])
+					if cl, ok := rhs.(*ast.CompositeLit); ok && len(cl.Elts) == 1 {
+						if kv, ok := cl.Elts[0].(*ast.KeyValueExpr); ok {
+							lit = kv.Value
+						}
+						return true
+					}
+					if call, ok := rhs.(*ast.CallExpr); ok && IsCall(info, call, P("util")+".FindFirstNonChoiceOrCase") && len(call.Args) == 1 {
+						for _, ft := range c.FactsAt(f, as, false) {
+							if ft.Kind == "cond" && ft.Pos && isChoiceCall(ft.Cond, call.Args[0]) {
+								viaChoice = call.Args[0]
+							}
+						}
+						return true
+					}
+					okDefs = false
+					return true
+				})
+				if okDefs && lit != nil && viaChoice != nil && sameExpr(info, lit, viaChoice) {
+					res = "the entry itself unless it is a choice/case, else its first non-choice descendants"
+				}
+				return true
+			})
+			return res
+		}
+		return ""
+	}
+	n := 0
+	ast.Inspect(f.Decl.Body, func(x ast.Node) bool {
+		switch s := x.(type) {
+		case *ast.CallExpr:
+			if IsCall(info, s, P("genutil")+".addNewChild") && len(s.Args) == 4 {
+				n++
+				sel, ok := ast.Unparen(s.Args[1]).(*ast.SelectorExpr)
+				key := fmt.Sprintf("genutil.FindAllChildren:record#%d", n)
+				if !ok || sel.Sel.Name != "Name" || !sameExpr(info, sel.X, s.Args[2]) {
+					r.Bad(key, c.Pos(s.Pos()), "FindAllChildren records a child under a name that is not the child's own Name")
+					return true
+				}
+				why := notChoice(s, sel.X)
+				r.Check(why != "", key, c.Pos(s.Pos()), types.ExprString(sel.X)+" is not a choice/case: "+why, "FindAllChildren records "+types.ExprString(sel.X)+" as a child without having established that it is not a choice/case node: the choice's own name becomes a field (or its leaves collide)")
+			}
+		case *ast.AssignStmt:
+			if len(s.Lhs) != 1 {
+				return true
+			}
+			ix, ok := s.Lhs[0].(*ast.IndexExpr)
+			if !ok || types.ExprString(ix.X) != "prioNames" {
+				return true
+			}
+			n++
+			key := fmt.Sprintf("genutil.FindAllChildren:record#%d", n)
+			sel, ok := ast.Unparen(ix.Index).(*ast.SelectorExpr)
+			if !ok || sel.Sel.Name != "Name" {
+				r.Bad(key, c.Pos(s.Pos()), "prioNames is keyed by something other than an entry's Name")
+				return true
+			}
+			why := notChoice(s, sel.X)
+			r.Check(why != "", key, c.Pos(s.Pos()), "prioritised name "+types.ExprString(sel.X)+".Name is a data node's: "+why, "FindAllChildren adds "+types.ExprString(sel.X)+".Name to the prioritised-name allow list without having established that it is not a choice/case node: the leaves below a choice in the prioritised container are not allow-listed, so the same choice under config and state fails generation with duplicate errors")
+		}
+		return true
+	})
+}
